@@ -486,6 +486,44 @@ def _aliasing_task(_):
     return n, vs
 
 
+def user_subclasses(mm):
+    """'An instance of the requested class' also when the requested class is an application-defined subclass of a
+    package class: every structure class gets a subclass with one extra optional field; the minimal value plus that
+    field must come back as an instance of the subclass with the field set."""
+    from ..vse import VSE
+    lsp = impl.lsp()
+    conv = impl.converter()
+    vse = VSE(mm)
+    n = 0
+    vs = []
+    skipped = 0
+    for name in mm.structures:
+        cls = root_class(name)
+        if cls is None or not attrs.has(cls):
+            continue
+        try:
+            sub = attrs.make_class("Verif" + name.lstrip("_") + "Ext", {"verif_extra": attrs.field(default=None, kw_only=True)}, bases=(cls,))
+        except Exception:  # noqa: BLE001 - the class cannot be subclassed that way
+            skipped += 1
+            continue
+        j = vse.minimal(ref(name))
+        if not isinstance(j, dict):
+            continue
+        j = dict(j)
+        j["verifExtra"] = "x"
+        n += 1
+        try:
+            o = conv.structure(j, sub)
+        except Exception as e:  # noqa: BLE001
+            vs.append(Violation(PROP, "subclass-raise", name, "structuring into an application-defined subclass of %s raises %s" % (name, type(e).__name__),
+                                {"engine": "VSE", "root": name, "input": j, "subclass_of": name}, node=j, extra=type(e).__name__))
+            continue
+        if type(o) is not sub or getattr(o, "verif_extra", None) != "x":
+            vs.append(Violation(PROP, "subclass-not-requested-class", name, "structuring into an application-defined subclass of %s returns %s (extra field %r)" % (
+                name, type(o).__name__, getattr(o, "verif_extra", "<absent>")), {"engine": "VSE", "root": name, "input": j, "subclass_of": name}, node=j))
+    return n, vs, skipped
+
+
 def run(ctx):
     mm = get_mm()
     res = Result()
@@ -505,6 +543,9 @@ def run(ctx):
         alias_execs, alias_viols = pool.map(_aliasing_task, [0])[0]
     res.merge_violations(alias_viols)
     collision_execs += alias_execs
+    sub_execs, sub_viols, sub_skipped = user_subclasses(mm)
+    res.merge_violations(sub_viols)
+    collision_execs += sub_execs
     opts = {"cap_s": 900 if ctx.thorough else 120}
     a, v = explore_roots(ctx, judge, roots, kmin, kmax, opts)
     res.merge_violations(v)
@@ -544,7 +585,7 @@ def run(ctx):
                 "every union site x alternative x shape of C14 (heterogeneous arrays, maximal alternatives) embedded in its owner root; "
                 "history: all union-site minimal values (and empty arrays / maps) structured, every list / dict of the results edited, all structured again: "
                 "nothing put into an earlier result may show up in a later one",
-        "union_site_executions": site_execs, "shape_collision_groups": len(groups), "shape_collision_executions": collision_execs, "result_aliasing_history_executions": alias_execs, "testdata_true_vectors_walked": c_evals,
+        "union_site_executions": site_execs, "shape_collision_groups": len(groups), "shape_collision_executions": collision_execs, "result_aliasing_history_executions": alias_execs, "user_subclass_executions": sub_execs, "classes_not_subclassable": sub_skipped, "testdata_true_vectors_walked": c_evals,
         "roots": a["roots"], "bounds": {"min_base_k": kmin, "max_base_k": kmax},
         "outcome_classes": a["outcomes"], "attrs_fields_checked_resolved": nfields,
         "capped_roots": a["capped"], "exhaustive": not a["capped"], "samples": a["samples"],
